@@ -62,6 +62,38 @@ EXPS = [
             value => Err(EvalexprError::ExpectedString { actual: value }),
         }"""),
 ]
+EXPS += [
+  ("D1", "break", "value/display.rs", "tuple separator \", \" -> \",\"",
+   'write!(f, ", ")?;', 'write!(f, ",")?;'),
+  ("D2", "break", "value/display.rs", "strings printed without quotes",
+   'write!(f, "\\"{}\\"", string)', 'write!(f, "{}", string)'),
+  ("D3", "break", "value/display.rs", "once flag never set (separator never printed)",
+   "once = true;", "once = false;"),
+  ("D4", "harmless", "value/display.rs", "String arm as three write! calls in a block",
+   """            Value::String(string) => write!(f, "\\"{}\\"", string),""",
+   """            Value::String(string) => {
+                write!(f, "\\"")?;
+                write!(f, "{}", string)?;
+                write!(f, "\\"")
+            },"""),
+  ("D5", "harmless?", "value/display.rs", "once flag rewritten as split_first() first/rest",
+   """                let mut once = false;
+                for value in tuple {
+                    if once {
+                        write!(f, ", ")?;
+                    } else {
+                        once = true;
+                    }
+                    value.fmt(f)?;
+                }""",
+   """                if let Some((first, rest)) = tuple.split_first() {
+                    first.fmt(f)?;
+                    for value in rest {
+                        write!(f, ", ")?;
+                        value.fmt(f)?;
+                    }
+                }"""),
+]
 def reset():
     shutil.rmtree(SRC, ignore_errors=True); shutil.copytree(REF, SRC)
 def tr(src):
@@ -84,7 +116,7 @@ for (eid, kind, f, desc, old, new) in EXPS:
         if b.returncode == 0: res = "BUILDS"
         else:
             import re
-            errs = [l for l in out.splitlines() if "error:" in l and ".lean:" in l]
+            errs = [l for l in out.splitlines() if "error:" in l and "AgreeFnSweep.lean:" in l]
             lines = sorted({int(re.search(r"\.lean:(\d+):", l).group(1)) for l in errs})
             src = open(VERIF + "/lean/EvalexprVerif/Proofs/AgreeFnSweep.lean").read().splitlines()
             names = []
